@@ -1,3 +1,103 @@
-/// spec 5.6 Values of Correct Type (+ 5.8.3/5.8.5 variable usages inside values): a literal/variable is acceptable at a
-/// position of the given type.  Uninterpreted until unit `value` defines and proves it on check_value.
-pub uninterp spec fn value_valid<'src, S>(sch: &Schema<S, Pos>, vars: Option<&VariablesDefinition<'src>>, v: crate::nitrogql_ast::value::Value<'src>, t: crate::graphql_type_system::r#type::Type<S, Pos>) -> bool;
+// ---- spec 5.6 Values of Correct Type, 3.x input coercion rules, 5.8.3 / 5.8.5 variable usages.
+// `strict` = false: the rule exactly as the GraphQL specification states it (the oracle of C03/"sound");
+// `strict` = true : the same rule WITHOUT the one allowance nitrogql is known not to implement (known finding KF-C04-1:
+//                   IsVariableUsageAllowed lets a nullable variable with a non-null default flow into a non-null
+//                   position).  strict ==> spec (lemma in unit value); the two differ only on that region.
+use crate::nitrogql_ast::value::Value;
+use crate::nitrogql_ast::base::Ident;
+use crate::nitrogql_ast::variable::{Variable, VariableDefinition};
+use crate::nitrogql_ast::r#type::Type as AstType;
+use crate::graphql_type_system::r#type::Type;
+use crate::graphql_type_system::definitions::TypeDefinition;
+
+/// 3.5 Scalars, input coercion of literals (custom scalars are not validated)
+pub open spec fn scalar_accepts(name: Seq<char>, v: Value) -> bool {
+    if name == "Boolean"@ { v is BooleanValue }
+    else if name == "Int"@ { v is IntValue }
+    else if name == "Float"@ { v is FloatValue || v is IntValue }
+    else if name == "String"@ { v is StringValue }
+    else if name == "ID"@ { v is StringValue || v is IntValue }
+    else { true }
+}
+/// AreTypesCompatible(variableType, locationType) with the variable type still in AST form
+pub open spec fn ast_compat<S>(vt: AstType, loc: Type<S, Pos>) -> bool
+    decreases vt, loc
+{
+    if let Type::NonNull(li) = loc {
+        if let AstType::NonNull(vi) = vt { ast_compat(vi.r#type, li.inner) } else { false }
+    } else if let AstType::NonNull(vi) = vt {
+        ast_compat(vi.r#type, loc)
+    } else if let Type::List(li) = loc {
+        if let AstType::List(vi) = vt { ast_compat(vi.r#type, li.inner) } else { false }
+    } else if let AstType::List(_) = vt {
+        false
+    } else {
+        tv(loc->Named_0.name.inner) == vt->Named_0.name.name@
+    }
+}
+/// 5.8.5 IsVariableUsageAllowed (hasLocationDefaultValue is not known at a value position: taken as false)
+pub open spec fn usage_allowed<S>(vd: VariableDefinition, loc: Type<S, Pos>, strict: bool) -> bool {
+    if !strict && loc is NonNull && !(vd.r#type is NonNull) && vd.default_value is Some && !(vd.default_value->Some_0 is NullValue) {
+        ast_compat(vd.r#type, loc->NonNull_0.inner)
+    } else {
+        ast_compat(vd.r#type, loc)
+    }
+}
+pub open spec fn is_first_var(vs: Seq<VariableDefinition>, name: Seq<char>, i: int) -> bool {
+    0 <= i < vs.len() && vs[i].name.name@ == name && forall|k: int| 0 <= k < i ==> (#[trigger] vs[k]).name.name@ != name
+}
+/// 5.8.3 All Variable Uses Defined + 5.8.5
+pub open spec fn variable_valid<'src, S>(vars: Option<&VariablesDefinition<'src>>, var: Variable<'src>, loc: Type<S, Pos>, strict: bool) -> bool {
+    vars is Some && exists|i: int| is_first_var(vars->Some_0.definitions@, var.name@, i) && usage_allowed(#[trigger] vars->Some_0.definitions@[i], loc, strict)
+}
+
+pub open spec fn value_ok<'src, S>(sch: &Schema<S, Pos>, vars: Option<&VariablesDefinition<'src>>, v: Value<'src>, t: Type<S, Pos>, strict: bool) -> bool
+    decreases v, 2nat, t
+{
+    if let Value::Variable(var) = v { variable_valid(vars, var, t, strict) } else {
+        match t {
+            // a non-null position: not the null literal, and valid for the inner type
+            Type::NonNull(inner) => !(v is NullValue) && value_ok(sch, vars, v, inner.inner, strict),
+            // a list position: null, a list of valid items, or ONE valid item (coerced to a list of one)
+            Type::List(inner) => match v {
+                Value::NullValue(_) => true,
+                Value::ListValue(l) => forall|i: int| 0 <= i < l.values@.len() ==> value_ok(sch, vars, #[trigger] l.values@[i], inner.inner, strict),
+                _ => value_ok(sch, vars, v, inner.inner, strict),
+            },
+            Type::Named(n) => schema_types(sch).contains_key(tv(n.name.inner)) && named_ok(sch, vars, v, schema_types(sch)[tv(n.name.inner)].inner, strict),
+        }
+    }
+}
+/// a non-variable literal at a position whose (nullable) named type has definition `def`
+pub open spec fn named_ok<'src, S>(sch: &Schema<S, Pos>, vars: Option<&VariablesDefinition<'src>>, v: Value<'src>, def: TypeDefinition<S, Pos>, strict: bool) -> bool
+    decreases v, 1nat
+{
+    match def {
+        TypeDefinition::Scalar(s) => v is NullValue || scalar_accepts(tv(s.name.inner), v),
+        TypeDefinition::Enum(e) => v is NullValue || (v is EnumValue && exists|k: int| 0 <= k < e.members@.len() && tv((#[trigger] e.members@[k]).name.inner) == v->EnumValue_0.value@),
+        TypeDefinition::InputObject(o) => v is NullValue || (v is ObjectValue && {
+            let sup = v->ObjectValue_0.fields@;
+            // 5.6.2 Input Object Field Names
+            &&& forall|i: int| 0 <= i < sup.len() ==> argdef_names(o.fields@).contains((#[trigger] sup[i]).0.name@)
+            // 5.6.4 Input Object Required Fields, 5.6.1 field values
+            &&& forall|j: int| 0 <= j < o.fields@.len() ==> field_ok(sch, vars, v, #[trigger] o.fields@[j], strict)
+        }),
+        _ => false,   // Object / Interface / Union are not input types
+    }
+}
+pub open spec fn field_ok<'src, S>(sch: &Schema<S, Pos>, vars: Option<&VariablesDefinition<'src>>, v: Value<'src>, d: InputValue<S, Pos>, strict: bool) -> bool
+    decreases v, 0nat
+{
+    if v is ObjectValue {
+        let sup = v->ObjectValue_0.fields@;
+        if some_named(sup, tv(d.name.inner)) {
+            forall|i: int| is_first_named(sup, tv(d.name.inner), i) ==> value_ok(sch, vars, (#[trigger] sup[i]).1, d.r#type, strict)
+        } else {
+            !(d.r#type is NonNull) || d.default_value is Some
+        }
+    } else { true }
+}
+/// the specification's rule
+pub open spec fn value_valid<'src, S>(sch: &Schema<S, Pos>, vars: Option<&VariablesDefinition<'src>>, v: Value<'src>, t: Type<S, Pos>) -> bool {
+    value_ok(sch, vars, v, t, false)
+}
